@@ -1,6 +1,8 @@
 package jsonrpc
 
 import (
+	"strings"
+
 	"github.com/filecoin-project/go-jsonrpc"
 
 	coreda "github.com/evstack/ev-node/core/da"
@@ -18,4 +20,21 @@ func getKnownErrorsMapping() jsonrpc.Errors {
 	errs.Register(jsonrpc.ErrorCode(coreda.StatusContextCanceled), &coreda.ErrContextCanceled)
 	errs.Register(jsonrpc.ErrorCode(coreda.StatusHeightFromFuture), &coreda.ErrHeightFromFuture)
 	return errs
+}
+
+// wireError is an error that came back over JSON-RPC. Serialization keeps only the message, so
+// errors.Is recognizes the core DA sentinel errors by their text, as the retrieve path already does.
+type wireError struct{ error }
+
+func (e wireError) Unwrap() error { return e.error }
+
+func (e wireError) Is(target error) bool {
+	for _, s := range []error{coreda.ErrBlobNotFound, coreda.ErrBlobSizeOverLimit, coreda.ErrTxTimedOut,
+		coreda.ErrTxAlreadyInMempool, coreda.ErrTxIncorrectAccountSequence, coreda.ErrContextDeadline,
+		coreda.ErrHeightFromFuture, coreda.ErrContextCanceled} {
+		if target == s {
+			return strings.Contains(e.Error(), s.Error())
+		}
+	}
+	return false
 }
